@@ -53,7 +53,7 @@ Name(r) == IF r.ev = "step" THEN r.name ELSE "-"
 \* ---- C18: particle swarm (fields of r.x are harness-evaluated float predicates and rank projections)
 Pso(r) ==
     /\ r.x.vmax_ok = 1                               \* every velocity component within [-v_max, v_max]
-    /\ InLoop(frames) => r.x.nv = r.x.np /\ r.x.npb = r.x.np     \* one entry per particle, always
+    /\ InLoop(frames) => r.x.nv = r.x.np /\ r.x.npb = r.x.np     \* one entry per particle, always (inside the swarm's loop)
     /\ Name(r) = "ParticleVelocitiesUpdate" =>
           /\ r.x.moved = 1                           \* each particle moved by exactly its new velocity
           /\ r.x.vexact # 0                          \* (c1 = c2 = 0) the stored weight scaled the old velocity
@@ -66,9 +66,13 @@ Pso(r) ==
           /\ r.x.pbr = minr                          \* = best position that particle was ever evaluated at
     /\ (Name(r) = "GlobalBestParticleUpdate" /\ Len(r.x.pbr) > 0 /\ r.x.npb = r.x.np) =>
           r.x.gbr = MinOf(r.x.pbr)                   \* global best = best personal best
-    /\ (prev.xk = "pso" /\ Name(r) \notin {"PersonalBestParticlesInit", "PersonalBestParticlesUpdate"}) =>
+    \* (sw = 1: from this record on another swarm of the run is observed -- nothing to compare it with)
+    /\ (prev.xk = "pso" /\ r.x.sw = 0 /\ Name(r) \notin {"PersonalBestParticlesInit", "PersonalBestParticlesUpdate"}) =>
           r.x.pbr = prev.x.pbr                       \* memories change only in their update components
-    /\ (prev.xk = "pso" /\ Name(r) # "GlobalBestParticleUpdate") => r.x.gbr = prev.x.gbr
+    /\ (prev.xk = "pso" /\ r.x.sw = 0 /\ Name(r) # "GlobalBestParticleUpdate") => r.x.gbr = prev.x.gbr
+
+\* the per-particle history of evaluated positions starts afresh when another swarm takes over
+MinrKeep(r) == IF r.xk = "pso" /\ r.x.sw = 1 THEN <<>> ELSE minr
 
 \* ---- C19: ant colony
 Aco(r) ==
@@ -120,7 +124,8 @@ Enter(r) == /\ r.ev = "enter"
             /\ Common(r)
             /\ r.sizes = prev.sizes /\ r.calls = prev.calls
             /\ frames' = Append(frames, [role |-> r.role, h |-> r.h])
-            /\ UNCHANGED <<hdr, done, minr>> /\ prev' = r
+            /\ minr' = MinrKeep(r)
+            /\ UNCHANGED <<hdr, done>> /\ prev' = r
 
 IsIls == hdr.template \in {"real_ils", "permutation_ils"}
 IsFa == hdr.template \in {"real_fa", "real_fa@A"}
@@ -152,7 +157,8 @@ Exit(r) == /\ r.ev = "exit"
               /\ (On("C07") /\ f.role = "loop_body" /\ ~InLoop(rest) /\ r.sd = 1 /\ r.calls > 0) =>
                     BestIsMin(r.best, r.minseen)
               /\ frames' = rest
-           /\ UNCHANGED <<hdr, done, minr>> /\ prev' = r
+           /\ minr' = MinrKeep(r)
+           /\ UNCHANGED <<hdr, done>> /\ prev' = r
 
 StepLeaf(r) ==
     /\ r.ev = "step" /\ r.name \notin Composite
@@ -172,17 +178,18 @@ StepLeaf(r) ==
               /\ r.best = (IF prev.best = NoObj \/ r.topmin < prev.best THEN r.topmin ELSE prev.best)
               /\ r.best <= r.topmin                  \* at least as good as everyone it was updated from
     /\ minr' = IF r.name = "PopulationEvaluator" /\ r.xk = "pso"
-               THEN IF Len(minr) = Len(r.topr)
+               THEN IF Len(MinrKeep(r)) = Len(r.topr)
                     THEN [i \in 1..Len(r.topr) |-> IF r.topr[i] < minr[i] THEN r.topr[i] ELSE minr[i]]
                     ELSE r.topr
-               ELSE minr
+               ELSE MinrKeep(r)
     /\ UNCHANGED <<hdr, frames, done>> /\ prev' = r
 
 StepComposite(r) ==
     /\ r.ev = "step" /\ r.name \in Composite
     /\ Common(r)
     /\ r.sizes = prev.sizes /\ r.calls = prev.calls
-    /\ UNCHANGED <<hdr, frames, done, minr>> /\ prev' = r
+    /\ minr' = MinrKeep(r)
+    /\ UNCHANGED <<hdr, frames, done>> /\ prev' = r
 
 End(r) == /\ r.ev = "end"
           /\ ~done
